@@ -7,15 +7,22 @@ import (
 
 	"github.com/prometheus/client_golang/prometheus"
 	"github.com/resonatehq/resonate/internal/aio"
+	"github.com/resonatehq/resonate/internal/metrics"
 	"github.com/resonatehq/resonate/pkg/message"
 )
 
-// Verif drives the production connection registry (connections.add / rmv / get) and the production
-// PollWorker.Process in the order the single worker goroutine would, without sockets and goroutines.
+// Verif drives the production PollWorker the way the plugin does: its worker goroutine runs the production Start()
+// loop and receives connections, disconnections and messages over the three channels it selects on.  There are no
+// sockets; a listener is the buffered channel its handler would read from.  After every operation a barrier message
+// (receiver data that does not parse: Process answers it without touching any state) tells the harness that the single
+// worker goroutine has finished everything sent before it.
 type Verif struct {
-	w    *PollWorker
-	cids map[chan []byte]int
-	next int
+	w          *PollWorker
+	sq         chan *aio.Message
+	connect    chan *connection
+	disconnect chan *connection
+	cids       map[chan []byte]int
+	next       int
 }
 
 type VerifConn struct {
@@ -30,22 +37,41 @@ type VerifRow struct {
 
 func NewVerif(max int) *Verif {
 	g := prometheus.NewGauge(prometheus.GaugeOpts{Name: "verif_poll_connections"})
-	return &Verif{cids: map[chan []byte]int{}, w: &PollWorker{counter: g, connections: connections{max: max, cnt: g, conns: map[string][]*connection{}}}}
+	v := &Verif{cids: map[chan []byte]int{}, sq: make(chan *aio.Message), connect: make(chan *connection), disconnect: make(chan *connection)}
+	v.w = &PollWorker{sq: v.sq, metrics: metrics.New(prometheus.NewRegistry()), counter: g, connect: v.connect, disconnect: v.disconnect,
+		connections: connections{max: max, cnt: g, conns: map[string][]*connection{}}}
+	go v.w.Start()
+	return v
 }
+
+func (v *Verif) barrier() {
+	done := make(chan struct{})
+	v.sq <- &aio.Message{Type: message.Invoke, Data: []byte("{"), Done: func(bool, error) { close(done) }}
+	<-done
+}
+
+// Close ends the worker goroutine (what stopping the plugin does).
+func (v *Verif) Close() { close(v.connect) }
 
 func (v *Verif) Connect(group, id string, buf int) *VerifConn {
 	ch := make(chan []byte, buf)
 	v.next++
 	v.cids[ch] = v.next
 	c := &connection{group: group, id: id, ch: ch}
-	v.w.connections.add(c)
+	v.connect <- c
+	v.barrier()
 	return &VerifConn{c: c, Cid: v.next}
 }
 
-func (v *Verif) Disconnect(vc *VerifConn) { v.w.connections.rmv(vc.c, true) }
+func (v *Verif) Disconnect(vc *VerifConn) {
+	v.disconnect <- vc.c
+	v.barrier()
+}
 
 func (v *Verif) Send(t message.Type, data, body []byte) (ok bool, err error) {
-	v.w.Process(&aio.Message{Type: t, Data: data, Body: body, Done: func(s bool, e error) { ok, err = s, e }})
+	done := make(chan struct{})
+	v.sq <- &aio.Message{Type: t, Data: data, Body: body, Done: func(s bool, e error) { ok, err = s, e; close(done) }}
+	<-done
 	return
 }
 
